@@ -47,7 +47,21 @@ def rule_xport(m):
                  tt.t(n['rangeinit'])[1].endswith('::edges') and tt.t(n['rangeinit'])[2] == ('this',)]
         adds = _calls(f, 'addEdge')
         why = None
-        if len(loops) != 1 or len(adds) != 1:
+        # a result built through the edge-container constructor has 1 + (largest endpoint) vertices, not getSize()
+        via_container = None
+        for n in f.nodes:
+            if n['k'] == 'ReturnStmt' and f.children(n['i']):
+                r = tt.t(f.children(n['i'])[0])
+                while r[0] in ('ctor', 'cast') and r[2] and (r[0] == 'cast' or (len(r[2]) == 1 and r[2][0][0] in ('ctor', 'cast'))):
+                    r = r[2][0] if r[0] == 'ctor' else r[2]
+                if r[0] == 'ctor' and 'BaseGraph::Labeled' in r[1] and len(r[2]) == 1 and r[2][0][0] == 'var' and \
+                        f.unit.decl(r[2][0][1]).get('ctype', '').startswith(('std::list<', 'std::vector<', 'std::deque<', 'std::forward_list<')):
+                    via_container = n['i']
+        if via_container is not None and not adds:
+            why = 'the reversed graph is built through the edge-container constructor, which sizes it to 1 + the largest ' \
+                  'endpoint instead of getSize(): isolated vertices above the largest endpoint are lost (and reversing twice ' \
+                  'no longer gives an equal graph)'
+        elif len(loops) != 1 or len(adds) != 1:
             why = 'expected one enumeration of edges() and one insertion'
         else:
             e = ('var', loops[0]['loopvar'])
